@@ -136,7 +136,10 @@ def main(argv: Sequence[str] = None) -> int:
         {filename for path in args.path for filename in _recursively_find_files(path)}
     )
     for filename in filenames:
-        source = filename.read_text()
+        # newline="": keep the line endings of the file as they are (a file with \r\n line endings
+        # must not come back with \n on the lines that were not rewritten)
+        with open(filename, newline="") as stream:
+            source = stream.read()
 
         if args.command == "find":
             for match in finditer(args.pattern, source):
@@ -148,7 +151,8 @@ def main(argv: Sequence[str] = None) -> int:
             print(f"Parsing {filename}...")
             new_source = sub(args.pattern, args.replacement, source)
             if new_source != source:
-                filename.write_text(new_source)
+                with open(filename, "w", newline="") as stream:
+                    stream.write(new_source)
 
         else:
             print(f"Unknown command: {args.command}")
